@@ -96,13 +96,44 @@ def model_run(entry, cases, pool=None):
     return [r for c in res for r in c]
 
 
-def pmap(func, items, chunks=None):
-    """Parallel map over items with fork workers (implementation side)."""
+HANG = 'HANG'
+
+
+class _Hang(BaseException):
+    """Raised by the per-case alarm; a BaseException so that `except Exception` in the code under test
+    (Parser.parse swallows ordinary exceptions) cannot eat it."""
+
+
+def _alarm(*a):
+    raise _Hang()
+
+
+class _Guarded(object):
+    def __init__(self, func, limit):
+        self.func = func
+        self.limit = limit
+
+    def __call__(self, x):
+        import signal
+        signal.signal(signal.SIGALRM, _alarm)
+        signal.setitimer(signal.ITIMER_REAL, self.limit)
+        try:
+            return self.func(x)
+        except _Hang:
+            return HANG
+        finally:
+            signal.setitimer(signal.ITIMER_REAL, 0)
+
+
+def pmap(func, items, limit=20.0):
+    """Parallel map over items with fork workers (implementation side).  Each item runs under an
+    alarm of `limit` seconds; an item that does not return yields the HANG marker."""
     items = list(items)
+    g = _Guarded(func, limit)
     if len(items) < 64:
-        return [func(x) for x in items]
+        return [g(x) for x in items]
     with multiprocessing.get_context('fork').Pool(NCPU) as pool:
-        return pool.map(func, items, chunksize=max(1, len(items) // (NCPU * 8)))
+        return pool.map(g, items, chunksize=max(1, min(256, len(items) // (NCPU * 8))))
 
 
 # --------------------------------------------------------------------------
